@@ -6,6 +6,7 @@ from ..ref import alt as ralt
 from ..ref import bits
 
 LEVEL = "exploration"
+BRANCH_TARGETS = ['pyModeS.py_common:squawk', 'pyModeS.py_common:idcode']
 TECHNIQUE = 'runtime monitoring: exhaustive identity patterns and field products against forward builders, guard matrix over DF 0..31'
 LEVEL_TEXT = 'Finite field domains enumerated completely on every run; remaining bits sampled.'
 EXHAUSTIVE = True
